@@ -5,7 +5,7 @@ import ast
 
 from kvstatic.core import Repo, Report, ModelError, AnchorError, norm
 from kvstatic import grammar
-from kvstatic.paths import cz, guard_texts
+from kvstatic.paths import cz, czs, guard_texts
 from kvstatic.astutil import find_all, attr_chain, is_name, call_name, body_no_doc, target_names, walk_no_nested_funcs, parents, renamed, flatten_if_chain
 
 
@@ -232,10 +232,21 @@ def pins(rep, mod):
     g = mod.func('DelayFile.interconnects')
     t = cz(g)
     need = ['(c1,c2)=(circuit.cells[cn1],circuit.cells[cn2])', 'p1=tlib.pin_index(c1.kind,pn1)ifpn1isnotNoneelse0', 'p2=tlib.pin_index(c2.kind,pn2)ifpn2isnotNoneelse0',
-            '(f1,f2)=(c1.outs[p1].reader,c2.ins[p2].driver)', "iff1!=f2:assertlen(f2.outs)==1assertf1.outs[f2.ins[0].driver_pin]==f2.ins[0]line=f2.ins[0]eliflen(f2.outs)==1:line=f2.ins[0]", 'delays[line,:]=delvals']
+            '(f1,f2)=(c1.outs[p1].reader,c2.ins[p2].driver)', czs("""
+                if f1 != f2:
+                    assert len(f2.outs) == 1
+                    assert f1.outs[f2.ins[0].driver_pin] == f2.ins[0]
+                    line = f2.ins[0]
+                elif len(f2.outs) == 1:
+                    line = f2.ins[0]
+                else:
+                    log.warn(f'No branchfork to annotate interconnect delay {c1.name}/{p1}->{c2.name}/{p2}')
+                    continue
+                """), 'delays[line,:]=delvals']
     t2 = t.replace('c1,c2=(circuit', '(c1,c2)=(circuit').replace('f1,f2=(c1', '(f1,f2)=(c1')
+    blocks = [cz(x) for x in ast.walk(g) if isinstance(x, ast.If)]
     for w in need:
-        ok = w in t2
+        ok = w in t2 or w in blocks
         rep.ob('C14.pin', f'interconnects: {w[:70]}', ok)
         if not ok:
             rep.violate('C14.pin', mod, g, w[:120], f'interconnects: `{w[:140]}` required: origin from the driver cell\'s output pin, destination from the reader cell\'s input pin, annotated line = input of the (branch) fork in front of the destination', node=g)
